@@ -68,6 +68,7 @@ package media
 //@   trusted
 //@   requires m != nil
 //@   modifies ghostInt(m, "n"), ghostInt(m, "removed")
+//@   ensures ghostInt(m, "removed") == old(ghostInt(m, "removed")) + 1
 //@   ensures c != nil ==> c.cid == cid && c.recvQueue != nil && ghostInt(m, "n") == old(ghostInt(m, "n")) - 1
 //@   ensures c == nil ==> ghostInt(m, "n") == old(ghostInt(m, "n"))
 //@ func (m *consumptions) RemoveAndCloseAll() ()
@@ -142,6 +143,7 @@ package media
 //@   modifies ghostInt(&s.consumptions, "n"), ghostInt(&s.consumptions, "removed"), ghostInt(&s.flvConsumptions, "n"), ghostInt(&s.flvConsumptions, "removed"), anyFld((*consumption)(nil).closed), ghostAll("signals")
 //@   ensures ghostInt(&s.consumptions, "n") + ghostInt(&s.flvConsumptions, "n") <= old(ghostInt(&s.consumptions, "n") + ghostInt(&s.flvConsumptions, "n"))
 //@   ensures ghostInt(&s.consumptions, "n") + ghostInt(&s.flvConsumptions, "n") >= old(ghostInt(&s.consumptions, "n") + ghostInt(&s.flvConsumptions, "n")) - 1
+//@   ensures ghostInt(&s.consumptions, "removed") + ghostInt(&s.flvConsumptions, "removed") == old(ghostInt(&s.consumptions, "removed") + ghostInt(&s.flvConsumptions, "removed")) + 1
 
 //@ import "time"
 //@ import "io"
@@ -200,10 +202,12 @@ package media
 // attach: the join replay is written into the new consumer's queue BEFORE the consumer becomes visible to the
 // publisher (sendGop requires "not visible", Add makes it visible), and nothing is enqueued afterwards here
 //@ func (s *Stream) startConsume(consumer Consumer, packetType PacketType, extra string, useGopCache bool) (cid CID)
-//@   requires s != nil && s.cache != nil && s.flvCache != nil && s.logger != nil
+//@   requires s != nil && s.cache != nil && s.flvCache != nil && s.logger != nil && 0 <= ghostInt(&s.consumptions, "n") && ghostInt(&s.consumptions, "n") < 1<<30 && 0 <= ghostInt(&s.flvConsumptions, "n") && ghostInt(&s.flvConsumptions, "n") < 1<<30
 //@   modifies all()
 //@   assert[call:Add] true
-//@   ensures true
+// attaching to a stream that has already ended (its close ran RemoveAndCloseAll before this consumer was added) must not
+// leave the consumer attached for ever: it is taken off again at once (ghost "removed": removals attempted on the sets)
+//@   ensures old(s.status) != StreamOK && s.status == old(s.status) && !(packetType == FLVPacket && old(s.flvMuxer) == nil) ==> ghostInt(&s.consumptions, "removed") + ghostInt(&s.flvConsumptions, "removed") == old(ghostInt(&s.consumptions, "removed") + ghostInt(&s.flvConsumptions, "removed")) + 1
 
 // ---- registry: one live stream per path (C05) ---------------------------------------------------------------------
 //@ func runZeroConsumersCloseTask(s *Stream, closedStatus int32) ()
